@@ -115,6 +115,7 @@ def do_replay(prop, path):
         if v.known is not None and v.prop == prop:
             print(f"KNOWN-FINDING: property={prop} {known.findings[v.known]['what_fails']} [{v.known}]")
             break
+    print("REPLAY-RESULT " + json.dumps({'violations': [dict(v.to_json(), fkey=list(v.fkey())) for v in own]}, sort_keys=True))
     if own and hit:
         print(f"VIOLATION property={prop} replay={path}")
         return 1
@@ -123,6 +124,38 @@ def do_replay(prop, path):
         print(f"VIOLATION property={prop} replay={path}")
         return 1
     return 0
+
+
+class _FreshViolation:
+    """A violation as reported by a replay in an interpreter of its own."""
+
+    def __init__(self, d):
+        self.d = d
+        self.event = d['event']
+
+    def to_json(self):
+        return self.d
+
+
+def replay_fresh(prop, record, fkey, scratch_name='candidate'):
+    """Replay `record` in a fresh interpreter -> the violation with finding key `fkey` it reports, or None."""
+    path = os.path.join(env.scratch_dir(), f"{scratch_name}-{os.getpid()}.json")
+    with open(path, 'w') as fh:
+        json.dump({'property': prop, 'record': record}, fh)
+    try:
+        cp = subprocess.run([sys.executable, os.path.join(HERE, 'check.py'), prop, '--replay', path],
+                            capture_output=True, text=True, timeout=600)
+    finally:
+        try:
+            os.remove(path)
+        except OSError:
+            pass
+    for ln in cp.stdout.splitlines():
+        if ln.startswith('REPLAY-RESULT '):
+            for d in json.loads(ln[len('REPLAY-RESULT '):])['violations']:
+                if list(d['fkey']) == list(fkey):
+                    return _FreshViolation(d)
+    return None
 
 
 def do_check(prop, tier, seed, args):
@@ -205,9 +238,30 @@ def do_check(prop, tier, seed, args):
                        'record': small}, fh, indent=1, sort_keys=True)
         verified = 'unverified'
         if not args.no_verify_replay:
-            cp = subprocess.run([sys.executable, os.path.join(HERE, 'check.py'), prop, '--replay', path],
-                                capture_output=True, text=True, timeout=600)
-            verified = 'reproduced-in-fresh-interpreter' if cp.returncode == 1 else f'NOT-reproduced(exit {cp.returncode})'
+            fv = replay_fresh(prop, small, fkey)
+            verified = 'reproduced-in-fresh-interpreter' if fv is not None else 'NOT-reproduced'
+            if fv is None and sv is not None:
+                # The in-process minimisation was misled: the violation depends on state outside the record that this
+                # worker process had accumulated (something the library keeps per process).  Go back to unshrunk records
+                # and minimise with every candidate replayed in an interpreter of its own.
+                bysize = sorted(items, key=lambda it: len(it[1].get('events', ())))
+                # records that carry a second session / a second recipe hold such state inside the run: try them first
+                multi = [it for it in bysize if it[1].get('chain') or it[1].get('session2')]
+                for _, orig in multi[:4] + bysize[:2]:
+                    if replay_fresh(prop, orig, fkey) is None:
+                        continue
+                    budget = int(os.environ.get('VERIF_FRESH_SHRINK_BUDGET', '40'))
+                    small, sv2, used2 = shrink.shrink(reng, orig, fkey, known, budget=budget,
+                                                      tester=lambda r: replay_fresh(prop, r, fkey))
+                    used += used2
+                    vj = sv2.to_json() if sv2 is not None else v
+                    with open(path, 'w') as fh:
+                        json.dump({'property': prop, 'violation': {'fkey': list(fkey), 'detail': vj['detail'], 'event': vj['event']},
+                                   'seed': seed, 'occurrences_in_batch': len(items), 'shrink_replays': used,
+                                   'minimised': 'with every candidate replayed in a fresh interpreter', 'record': small},
+                                  fh, indent=1, sort_keys=True)
+                    verified = 'reproduced-in-fresh-interpreter (minimised out of process)'
+                    break
         print(f"violation {fkey} x{len(items)} (shrunk to {len(small.get('events', ()))} events, {used} replays, {verified})")
         print_violation_details(vj, small)
         lines.append(f"VIOLATION property={prop} replay={path}")
